@@ -176,6 +176,10 @@ var c09Cases = []vCase{
 	{name: "arity0-duplicates-retract-one", prog: ":- dynamic(foo/0). foo. foo. foo.", query: "retract(foo), findall(x, foo, L)."},
 	{name: "arity0-rule-duplicates", prog: ":- dynamic(foo/0). :- dynamic(m/1). foo :- m(k0). foo :- m(k1). foo :- m(k0).", query: "retract((foo :- m(k0))), assertz((foo :- m(k2))), fail ; findall(B, clause(foo, B), L)."},
 	{name: "ground-duplicates-stale-retract", prog: ":- dynamic(g/1). t :- assertz(g(k0)), assertz(g(k0)), retract(g(k0)), once(retract(g(k0))), assertz(g(k0)), fail. t.", query: "t, findall(X, g(X), L)."},
+	{name: "retractall-one-head-among-rules", prog: ":- dynamic(q/1). :- dynamic(ok/0). q(k0). q(k1) :- ok. q(k2). q(X) :- X = k3.", query: "retractall(q(k1)), findall(H-B, clause(q(H), B), L)."},
+	{name: "retractall-everything-incl-rules", prog: ":- dynamic(q/1). :- dynamic(ok/0). q(k0). q(k1) :- ok. q(X) :- X = k3.", query: "retractall(q(_)), findall(H, clause(q(H), _), L)."},
+	{name: "retractall-inside-open-call", prog: ":- dynamic(q/1). :- dynamic(ok/0). ok. q(k0). q(k1) :- ok. q(k2).", query: "q(X), retractall(q(_)), fail ; findall(H, clause(q(H), _), L)."},
+	{name: "retractall-nonmatching-rule-heads", prog: ":- dynamic(q/2). q(k0, X) :- X = k1. q(k1, k2). q(Y, k0) :- Y = k2.", query: "retractall(q(k0, _)), findall(A-B-C, clause(q(A, B), C), L)."},
 	{name: "retract-clause-with-body-var", prog: ":- dynamic(p/1). p(X) :- X = k0. p(k1).", query: "retract((p(A) :- B)), findall(C, p(C), L)."},
 }
 
